@@ -1810,6 +1810,9 @@ def _violations(prop, prog, hints, limit):
 def known_matcher(k, what, replay):
     cls = k.get('class')
     if cls == 'walrus-in-comprehension-condition-read-by-element':
+        if isinstance(replay, dict) and replay.get('kind') == 'c01_exec':
+            from . import c01_exec
+            return 'read' in replay and c01_exec.walrus_in_comp_condition(replay['source'], replay['read'])
         return has_walrus_in_comp(replay.get('program'))
     if cls == 'nonlocal-rebound-read':
         from . import c01_exec
